@@ -287,7 +287,7 @@
                 (hash-table-update!/default (bag-table bag1)
                                             elt
                                             (lambda (c) (+ c count))
-                                            count))
+                                            0))
               (bag-table (car bags)))
              (apply bag-sum! bag1 (cdr bags))))))
 
